@@ -3,6 +3,7 @@
 from __future__ import annotations
 
 import ast
+import glob as _glob17
 import os
 import math
 import re
@@ -77,6 +78,9 @@ def run(rep: core.Report):
     _r17m(rep)
     _r17n(rep)
     _r17p(rep)
+    from rules import shared_trunc
+
+    shared_trunc.run_int_calls(rep, "R17q", sorted(os.path.relpath(f_, core.REPO) for f_ in _glob17.glob(str(core.REPO / "phonopy/interface/*.py"))))
     import glob as _glob
     from rules import c16 as _c16
 
